@@ -775,7 +775,11 @@ func (t *tokenizer) readEscapedChar(isClob bool) (rune, error) {
 		if isClob {
 			return 0, t.invalidChar('U')
 		}
-		return t.readHexEscapeSeq(8)
+		r, err := t.readHexEscapeSeq(8)
+		if err == nil && (r < 0 || r > 0x10FFFF) {
+			return 0, &SyntaxError{"escape sequence is not a Unicode code point", t.pos - 10}
+		}
+		return r, err
 	case 'u':
 		if isClob {
 			return 0, t.invalidChar('u')
